@@ -80,7 +80,7 @@ def run(ctx):
                 cmds.append("Q %s get %s" % (s, hx(nm)))
         cmds += ["Q client unterminated " + hx("xcm.type"), "Q accepted unterminated " + hx("b" * 64),
                  "Q client get2 " + hx("xcm.type"), "Q client badtype -", "Q accepted cfmtype -", "Q server short -",
-                 "Q client empty -", "Q accepted hangup -", "M client 5", "M server 3", "MIX client", "MIX accepted",
+                 "Q client empty -", "Q accepted hangup -", "M client 5", "M server 3", "MIX client", "MIX accepted", "MIX2 client", "MIX2 accepted", "MIX2 server",
                  "L client " + hx("xcm.transport"), "L accepted ALL", "L server ALL", "L client " + hx("tls.key"),
                  "D %d" % (30 if quick else 300), "Q client getall -", "X"]
         rc, out, err = common.run_proc([exe], "\n".join(cmds) + "\n", env=env, timeout=300)
@@ -146,6 +146,14 @@ def run(ctx):
                     ctx.violation("sys_ctl:monitor:session-mixup",
                                   "two simultaneous control sessions: after the flooding session hung up, the idle session got an "
                                   "unsolicited or foreign reply (%s)" % l, rep)
+            elif w[0] == "MIX2":
+                if l.startswith("mix2 a_answered"):
+                    f = dict(x.split("=") for x in l.split()[1:])
+                    ctx.count("ctl.mix2.window%s" % f["window"])
+                    if f["answered"] != "1" or f["matches"] != "1":
+                        ctx.violation("sys_ctl:monitor:pending-reply-mixup",
+                                      "two simultaneous control sessions: the first one hung up while the second one's reply was waiting to be "
+                                      "sent; the second session then received no answer or one that is not the answer to its request (%s)" % l, rep)
             elif w[0] == "L":
                 if " | inproc " not in l:
                     continue
